@@ -1,14 +1,78 @@
 /-
-  Driver/PoolD.lean — line protocol of the `pool` engine (owner: the engineer of that engine).
-  `handle` consumes one input line (already split into tokens) and returns the new driver state
-  and one output line.
+  Driver/PoolD.lean — line protocol of the `pool` engine (model: BumpProof/Pool/Model.lean).
+
+    pool-new …                      start of a case: the model state becomes `Pool.init`          → `ok`
+    op get <g> <createOk 0|1>       `BumpPool::get*` / `try_get*` (linearised by lock ticket)     → `arena <id> new|reused idle=<n>` | `err idle=<n>`
+    op put <g>                      drop of guard g                                               → `done idle=<n>`
+    op forget <g>                   `mem::forget` of guard g                                      → `done`
+    op alloc <g> <tag>              an allocation through guard g                                 → `arena <id>`
+    op reset | reset_to_start | drop                                                            → `done arenas=<n>`
+    q idle                          the idle stack, bottom → top (`pool.bumps()` order)           → `idle <id> <id> …`
+    q contents                      tags of the blocks of every idle arena, in `bumps()` order    → `contents <id>:[t,t,…] …`
+    q counters                      per idle arena: resets/rewinds/drops applied                  → `counters <id>:r/w/d …`
+    q live                          number of live guards + forgotten guards, arenas created     → `live <n> created <m>`
+
+  `idle=<n>` is the number of idle arenas at the moment the lock was taken (before the operation),
+  the implementation reports the same number from inside its critical section.
+  A step the model rejects (contract violation) answers `bad-op <reason>`; the state is unchanged.
 -/
+import BumpProof.Pool.Model
+
 namespace Driver.PoolD
+open Pool
 
 structure DState where
-  dummy : Nat := 0
+  s : Pool.State := Pool.init
   deriving Inhabited
 
-def handle (d : DState) (_toks : List String) : DState × String := (d, "bad-line")
+def errName : Err → String
+  | .guardInUse => "guard-in-use"
+  | .noGuard => "no-guard"
+  | .guardsLive => "guards-live"
+  | .poolDropped => "pool-dropped"
+
+def parseStep (toks : List String) : Option Step :=
+  match toks with
+  | ["get", g, ok] => do pure (.get (← g.toNat?) ((← ok.toNat?) != 0))
+  | ["put", g] => do pure (.put (← g.toNat?))
+  | ["forget", g] => do pure (.forget (← g.toNat?))
+  | ["alloc", g, t] => do pure (.alloc (← g.toNat?) (← t.toNat?))
+  | ["reset"] => some .reset
+  | ["reset_to_start"] => some .resetToStart
+  | ["drop"] => some .drop
+  | _ => none
+
+def joinNats (l : List Nat) (sep : String) : String := sep.intercalate (l.map toString)
+
+def render (before : Pool.State) (st : Step) (o : Out) : String :=
+  match st, o with
+  | .get _ _, .got a fresh => s!"arena {a} {if fresh then "new" else "reused"} idle={before.idle.length}"
+  | .get _ _, _ => s!"err idle={before.idle.length}"
+  | .put _, _ => s!"done idle={before.idle.length}"
+  | .forget _, _ => "done"
+  | .alloc g _, _ =>
+    match arenaOf g before.owned with
+    | some a => s!"arena {a}"
+    | none => "bad-op"
+  | _, _ => s!"done arenas={before.idle.length}"
+
+def handle (d : DState) (toks : List String) : DState × String :=
+  match toks with
+  | "pool-new" :: _ => ({ s := Pool.init }, "ok")
+  | "op" :: rest =>
+    match parseStep rest with
+    | none => (d, "bad-line")
+    | some st =>
+      match step d.s st with
+      | .ok (s', o) => ({ s := s' }, render d.s st o)
+      | .error e => (d, s!"bad-op {errName e}")
+  | ["q", "idle"] => (d, "idle " ++ joinNats d.s.idle.reverse " ")
+  | ["q", "contents"] =>
+    (d, "contents " ++ " ".intercalate (d.s.idle.reverse.map fun a => s!"{a}:[{joinNats (d.s.arenas a).tags ","}]"))
+  | ["q", "counters"] =>
+    (d, "counters " ++ " ".intercalate (d.s.idle.reverse.map fun a =>
+      let x := d.s.arenas a; s!"{a}:{x.resets}/{x.rewinds}/{x.drops}"))
+  | ["q", "live"] => (d, s!"live {d.s.owned.length + d.s.leaked.length} created {d.s.created}")
+  | _ => (d, "bad-line")
 
 end Driver.PoolD
